@@ -71,6 +71,24 @@ def run_case(job):
             rec["tests"].append({"q": q, "a": a0, "b": b0, "r1": r1, "r2": r2, "a2": _abs(a), "b2": _abs(b)})
         rec["after"] = _abs(l)
         rec["c1after"] = _abs(c1)
+        # the same questions after a copy has been edited in place (orientation flipped, complemented in
+        # place): the answers are about the lines as they read now
+        e1 = l.clone()
+        e1.is_eql(l); e1.is_complement(l)
+        e1.from_orient = inv[f[2]]
+        e2 = l.clone()
+        e2.is_same(l)
+        e2.to_orient = inv[f[4]]
+        e3 = l.clone()
+        e3.is_eql(l)
+        e3.make_complement()
+        for e in (e1, e2, e3):
+            for q, a, b in (("is_eql", e, l), ("is_eql", l, e), ("is_same", e, l), ("is_complement", e, l),
+                            ("is_complement", l, e), ("is_complement", e, c1), ("is_eql", e, c1)):
+                a0, b0 = _abs(a), _abs(b)
+                r1 = bool(getattr(a, q)(b))
+                r2 = bool(getattr(a, q)(b))
+                rec["tests"].append({"q": q, "a": a0, "b": b0, "r1": r1, "r2": r2, "a2": _abs(a), "b2": _abs(b)})
     except core.Timeout:
         rec["res"], rec["exc"] = "FOREIGN", "timeout"
     except BaseException as e:  # noqa
